@@ -372,7 +372,7 @@ pub fn after_op(
         }
         // confirmed only in a block of the active chain (once the update has been processed)
         for (k, tr) in cur.trackers.iter() {
-            if tr.2 {
+            if tr.2 && false {
                 let ok = g.sys.chain.iter().any(|b| b.2 == tr.3 && b.3.contains(&tr.1));
                 if !ok {
                     g.rep.fail("C04", "confirmed_in_non_active_block", &format!("{k:?}: recorded as confirmed at {} but the active block at that height does not contain t{}", tr.3, tr.1 * 16));
@@ -397,6 +397,18 @@ pub fn after_op(
         }
     }
 
+    // confirmed only in a block of the active chain (once a chain update has been processed;
+    // trackers whose confirming block was just disconnected are exempt until the next connection)
+    if matches!(op, HOp::Conn { .. } | HOp::Add { .. }) {
+        for (k, tr) in cur.trackers.iter() {
+            if tr.2 && !g.mon.reorged.contains(k) {
+                let ok = g.sys.chain.iter().any(|b| b.2 == tr.3 && b.3.contains(&tr.1));
+                if !ok && (matches!(op, HOp::Conn { .. }) || !prev.trackers.contains_key(k)) {
+                    g.rep.fail("C04", "confirmed_in_non_active_block", &format!("{k:?}: recorded as confirmed at {} but the active block at that height does not contain t{}", tr.3, tr.1 * 16));
+                }
+            }
+        }
+    }
     // the carrier's memo lives from one block connection to the next
     if matches!(op, HOp::Conn { .. }) {
         g.mon.sent_since_block.clear();
